@@ -205,6 +205,73 @@ fn cap_programs(n: usize) -> Vec<(String, Vec<String>, bool)> {
     v
 }
 
+/// Accumulation pass: after every run of every loop / subroutine grammar program the open
+/// loops (by variable, in order) and the number of frames must be exactly those of the
+/// reference machine - anything more is state that accumulated, anything less was lost.
+fn accumulation_pass(thorough: bool) -> (u64, u64, Vec<Violation>) {
+    use crate::c03::{run_model, ModelEnd};
+    use crate::progs::*;
+    use crate::refmodel::render_program;
+    let nest = nest_menu();
+    let lp = loop_menu();
+    let n = if thorough { 5 } else { 4 };
+    let mut programs = 0u64;
+    let mut turns = 0u64;
+    let mut viol = vec![];
+    for menu in [&nest, &lp] {
+        let base = menu.len() as u64;
+        for len in 1..=n {
+            let joins = join_patterns(len, len <= 3);
+            let res: Vec<(u64, u64, Vec<Violation>)> = (0..pow(base, len))
+                .into_par_iter()
+                .map(|i| {
+                    let seq: Vec<T> = decode_seq(i, base, len).iter().map(|k| menu[*k].1.clone()).collect();
+                    let (mut p, mut t) = (0u64, 0u64);
+                    let mut out = vec![];
+                    for &j in &joins {
+                        let prog = layout(&seq, j);
+                        let (m, mend) = run_model(&prog, 1, false);
+                        if !matches!(mend, ModelEnd::Ended | ModelEnd::Err(_, _)) {
+                            continue;
+                        }
+                        let lines = render_program(&prog);
+                        let (tn, end, bad, s) = run_checked(&lines, 1000);
+                        p += 1;
+                        t += tn;
+                        let mut problem = bad.map(|w| format!("invariant: {}", w));
+                        if problem.is_none() && !matches!(end, RunEnd::Cap | RunEnd::Panic(_)) {
+                            let snap = s.it.verif_snapshot();
+                            let got: Vec<String> = snap.loops.iter().map(|l| l.symbol.clone()).collect();
+                            let want: Vec<String> = m.loops.iter().map(|l| l.var.clone()).collect();
+                            if got != want {
+                                problem = Some(format!("open loops after the run are {:?}, the reference machine holds {:?}", got, want));
+                            } else if snap.stack.len() != m.frames.len() {
+                                problem = Some(format!("{} frames after the run, the reference machine holds {}", snap.stack.len(), m.frames.len()));
+                            }
+                        }
+                        if let Some(w) = problem {
+                            out.push(Violation {
+                                signature: format!("grammar program: {}", w.chars().filter(|c| !c.is_ascii_digit()).collect::<String>()),
+                                detail: format!("{:?}: {} (run ended {:?}, reference {:?})", lines, w, end, mend),
+                                case: case_program(&lines, &[], 0),
+                            });
+                        }
+                    }
+                    (p, t, out)
+                })
+                .collect();
+            for (p, t, v) in res {
+                programs += p;
+                turns += t;
+                if viol.len() < 200 {
+                    viol.extend(v);
+                }
+            }
+        }
+    }
+    (programs, turns, viol)
+}
+
 pub fn run(thorough: bool) -> Report {
     let mut rep = Report::new("C16", "model_checking");
     let alpha = alphabet();
@@ -353,8 +420,21 @@ pub fn run(thorough: bool) -> Report {
         }
     }
 
+    let (acc_programs, acc_turns, acc_viol) = accumulation_pass(thorough);
+    cap_turns += acc_turns;
+    {
+        let mut v = acc_viol;
+        v.sort_by_key(|x| x.detail.len());
+        for x in v {
+            rep.violating_cases += 1;
+            if seen.insert(x.signature.clone()) {
+                rep.violations.push(x);
+            }
+        }
+    }
     let mut cov = stats_json(&stats);
     if let serde_json::Value::Object(m) = &mut cov {
+        m.insert("grammar_programs_compared_with_the_reference_loop_and_frame_stacks".into(), json!(acc_programs));
         m.insert("states".into(), json!(stats.states));
         m.insert("transitions".into(), json!(stats.transitions + dim_cases + cap_turns));
         m.insert("traces_validated_against_impl".into(), json!(stats.transitions + dim_cases + cap_turns));
